@@ -14,8 +14,9 @@ def allBits (rows cols n : Nat) (pd : List Nat) : Except ErrKind (List (List Boo
   if n * (rows * cols) ≤ 8 * pd.length then .ok ((List.range n).map (sliceBits pd (rows * cols))) else .error .value
 
 /-- run a history on a native 1-bit in-memory image; the answers of the fetch operations, in order -/
-def runHistory (rows cols n : Nat) (pd0 : List Nat) (ops : List Json) : Except String (List Json) := do
-  let one := fun pd k ai => memFrameBits pd rows cols 1 n k ai
+def runHistory (rows cols n : Nat) (pd0 : List Nat) (ops : List Json) (lazy : Bool := false) : Except String (List Json) := do
+  -- `lazy`: the object reads its frames from the file (un-cached fetch = the lazy reader)
+  let one := fun pd k ai => if lazy then lazyFrameBits pd rows cols 1 n k ai else memFrameBits pd rows cols 1 n k ai
   let all := allBits rows cols n
   let mut s : Img (List Bool) := ⟨pd0, none⟩
   let mut out : List Json := []
@@ -26,6 +27,20 @@ def runHistory (rows cols n : Nat) (pd0 : List Nat) (ops : List Json) : Except S
       let r := fetchStep one all n sk s (← getInt o "k") (← getBool o "as_index")
       s := r.1
       out := out ++ [exceptToJson boolsToJson r.2]
+    else if kind == "fetchMany" then
+      -- get_stored_frames(ks): the frames in request order, or the refusal of the whole batch; an empty request is refused (np.stack)
+      let ks ← getIntList o "ks"
+      let ai ← getBool o "as_index"
+      let mut res : Except ErrKind (List (List Bool)) := .ok []
+      for k in ks do
+        let r := fetchStep one all n batchSkel s k ai
+        s := r.1
+        res := match res, r.2 with
+          | .ok l, .ok f => .ok (l ++ [f])
+          | .ok _, .error e => .error e
+          | .error e, _ => .error e
+      if ks.isEmpty then res := .error .value
+      out := out ++ [exceptToJson (fun l => Json.arr (l.map boolsToJson).toArray) res]
     else if kind == "whole" then
       s := step one all n s .whole
     else if kind == "replace" then
@@ -80,7 +95,10 @@ def handlers : List (String × Handler) := [
     pure (exceptToJson (fun l => Json.arr (l.map boolsToJson).toArray) r)),
   ("history", fun j => do
     let ops ← getArr j "ops"
-    let out ← runHistory (← getNat j "rows") (← getNat j "cols") (← getNat j "n") (← getNatList j "pd") ops.toList
+    let lazy ← match j.getObjVal? "lazy" with
+      | .ok v => v.getBool?
+      | .error _ => pure false
+    let out ← runHistory (← getNat j "rows") (← getNat j "cols") (← getNat j "n") (← getNatList j "pd") ops.toList lazy
     pure (okJson (Json.arr out.toArray))),
   ("stdFrameIndex", fun j => do
     let r := stdFrameIndex (← getInt j "k") (← getBool j "as_index") (← getInt j "n")
